@@ -243,6 +243,7 @@ def check_config(prop, cfg, ctx, validate=True, want_smt2=0):
             except Exception as e:
                 rec['errors'].append('post(): %s\n%s' % (repr(e), traceback.format_exc()[-1500:]))
                 continue
+            ex.begin_verdicts(path)
             for name, cond in obls:
                 rec['obligations'] += 1
                 if cond is True:
@@ -299,6 +300,7 @@ def check_config(prop, cfg, ctx, validate=True, want_smt2=0):
                         continue                          # re-solve outside the known region
                     rec['violations'].append(v)
                     break
+            ex.end_verdicts()
             # per-path differential validation of the encoding
             if validate:
                 _validate_path(prop, cfg, ctx, inp, path, ob, rec, dbl)
@@ -306,10 +308,13 @@ def check_config(prop, cfg, ctx, validate=True, want_smt2=0):
                 rec['samples'].append(dict(decisions=[int(d) for d in path.decisions][:40], n_obligations=len(obls),
                                            pc_conjuncts=len(path.pc), outcome=_short(ob, 200)))
     except PathCap as e:
+        ex.end_verdicts()
         rec['errors'].append('path cap: ' + str(e))
     except ConfigTimeout as e:
+        ex.end_verdicts()
         rec['errors'].append('timeout: ' + str(e))
     except Exception as e:
+        ex.end_verdicts()
         rec['errors'].append('exploration: %s\n%s' % (repr(e), traceback.format_exc()[-2000:]))
     rec['solver_queries'] = ex.stats['solver_queries'] - q0
     rec['solver_s'] = round(ex.stats['solver_s'] - s0, 4)
